@@ -69,6 +69,43 @@ type c15Sub struct {
 	wild bool
 	cap  int
 	tys  []int
+	// rej >= 2: a Subscribe call that must be REJECTED: the listed (valid) types with one
+	// invalid entry inserted at index (rej-2)/2; (rej-2)%2 == 0: a non-pointer value,
+	// 1: an untyped nil.  The wire carries rej in the `wild` field.
+	rej int
+}
+
+// c15RejectedSubscribe issues the invalid call.  A nil entry makes the validation loop
+// of Subscribe dereference a nil reflect.Type: that panic is raised in the caller's
+// goroutine before the bus is touched and counts as the rejection.
+func c15RejectedSubscribe(bus event.Bus, sc c15Sub) (sub event.Subscription, err error) {
+	pos, kind := (sc.rej-2)/2, (sc.rej-2)%2
+	var bad any = 5
+	if kind == 1 {
+		bad = nil
+	}
+	var l []any
+	for j, ty := range sc.tys {
+		if j == pos {
+			l = append(l, bad)
+		}
+		l = append(l, c15TypePtr(ty))
+	}
+	if pos >= len(sc.tys) {
+		l = append(l, bad)
+	}
+	var arg any = l
+	if len(l) == 1 {
+		arg = l[0]
+	}
+	if kind == 1 {
+		defer func() {
+			if p := recover(); p != nil {
+				sub, err = nil, fmt.Errorf("rejected (panic in the caller): %v", p)
+			}
+		}()
+	}
+	return bus.Subscribe(arg, BufSize(sc.cap))
 }
 type c15Emit struct {
 	em int
@@ -112,6 +149,12 @@ func (r *c15Run) isReturned(kind, idx int) bool {
 	r.mu.Lock()
 	defer r.mu.Unlock()
 	return r.returned[[2]int{kind, idx}]
+}
+
+func (r *c15Run) haveSub(s int) bool {
+	r.mu.Lock()
+	defer r.mu.Unlock()
+	return r.subs[s] != nil
 }
 
 // op runs f in a new goroutine: Start label (by the caller, quiescent), Ret
@@ -198,7 +241,9 @@ func (r *c15Run) apply(s c15Stim) {
 			r.op(3, i, func() error {
 				var sub event.Subscription
 				var err error
-				if sc.wild {
+				if sc.rej >= 2 {
+					sub, err = c15RejectedSubscribe(r.bus, sc)
+				} else if sc.wild {
 					sub, err = r.bus.Subscribe(event.WildcardSubscription, BufSize(sc.cap))
 				} else if len(sc.tys) == 1 {
 					sub, err = r.bus.Subscribe(c15TypePtr(sc.tys[0]), BufSize(sc.cap))
@@ -266,7 +311,8 @@ func (r *c15Run) enabled() (res []c15Stim) {
 	for s := range r.cfg.subs {
 		if !st(3, s) {
 			res = append(res, c15Stim{0, 3, s})
-		} else if r.isReturned(3, s) {
+		} else if r.isReturned(3, s) && r.cfg.subs[s].rej == 0 && r.haveSub(s) {
+			// (a rejected Subscribe handed out nothing to read from or to close)
 			if !st(4, s) {
 				res = append(res, c15Stim{0, 4, s})
 			}
@@ -388,7 +434,11 @@ func c15Encode(cfg c15Cfg, labels [][4]int64) []int64 {
 		l = append(l, int64(e.ty), b2i(e.stateful))
 	}
 	for _, s := range cfg.subs {
-		l = append(l, b2i(s.wild), int64(s.cap), int64(len(s.tys)))
+		w := b2i(s.wild)
+		if s.rej >= 2 {
+			w = int64(s.rej)
+		}
+		l = append(l, w, int64(s.cap), int64(len(s.tys)))
 		for _, ty := range s.tys {
 			l = append(l, int64(ty))
 		}
@@ -420,7 +470,11 @@ func c15Decode(l []int64) (cfg c15Cfg, stims []c15Stim, ok bool) {
 		cfg.emitters = append(cfg.emitters, c15Emitter{int(get()), get() == 1})
 	}
 	for i := 0; i < ns && ok; i++ {
-		s := c15Sub{wild: get() == 1, cap: int(get())}
+		w := get()
+		s := c15Sub{wild: w == 1, cap: int(get())}
+		if w >= 2 {
+			s.rej = int(w)
+		}
 		n := int(get())
 		for j := 0; j < n && ok; j++ {
 			s.tys = append(s.tys, int(get()))
@@ -473,6 +527,23 @@ func c15GenCfg(r *verifh.Rand, thorough bool) c15Cfg {
 			s.tys = []int{r.Intn(cfg.ntypes)}
 		}
 		cfg.subs = append(cfg.subs, s)
+	}
+	if r.Chance(1, 3) {
+		// a rejected Subscribe call somewhere in the history: 0-2 valid types, the invalid
+		// entry (non-pointer / nil) in front of, between or behind them
+		s := c15Sub{cap: c15Caps[r.Intn(2)]}
+		switch r.Intn(3) {
+		case 0:
+		case 1:
+			s.tys = []int{r.Intn(cfg.ntypes)}
+		default:
+			a := r.Intn(cfg.ntypes)
+			b := (a + 1 + r.Intn(cfg.ntypes-1)) % cfg.ntypes
+			s.tys = []int{a, b}
+		}
+		s.rej = 2 + 2*r.Intn(len(s.tys)+1) + r.Intn(2)
+		at := r.Intn(len(cfg.subs) + 1)
+		cfg.subs = append(cfg.subs[:at], append([]c15Sub{s}, cfg.subs[at:]...)...)
 	}
 	nk := 3 + r.Intn(6)
 	for i := 0; i < nk; i++ {
@@ -584,7 +655,9 @@ func c15Cover(out *verifh.Out, cfg c15Cfg, labels [][4]int64) {
 		out.Cover("run.two_or_more_emits_blocked_at_once")
 	}
 	for _, s := range cfg.subs {
-		if s.wild {
+		if s.rej >= 2 {
+			out.Cover("sub.rejected." + c15RejName(s))
+		} else if s.wild {
 			out.Cover(fmt.Sprintf("sub.wildcard.cap%d", s.cap))
 		} else {
 			out.Cover(fmt.Sprintf("sub.typed%d.cap%d", len(s.tys), s.cap))
@@ -596,7 +669,7 @@ func c15Cover(out *verifh.Out, cfg c15Cfg, labels [][4]int64) {
 // Emitter(T1); Subscribe(T1, buf 0); Emit; Subscribe([T1,T0], buf 0); Emitter(T1); Emit; two receives on sub0
 var c15DeadlockCfg = c15Cfg{ntypes: 2,
 	emitters: []c15Emitter{{1, false}, {1, false}},
-	subs:     []c15Sub{{false, 0, []int{1}}, {false, 0, []int{1, 0}}},
+	subs:     []c15Sub{{false, 0, []int{1}, 0}, {false, 0, []int{1, 0}, 0}},
 	emits:    []c15Emit{{0, 100}, {0, 101}}}
 
 var c15DeadlockStims = []c15Stim{{0, 0, 0}, {0, 3, 0}, {0, 2, 0}, {0, 3, 1}, {0, 0, 1}, {0, 2, 1}, {2, 0, 0}, {2, 0, 0}}
@@ -605,7 +678,7 @@ var c15DeadlockStims = []c15Stim{{0, 0, 0}, {0, 3, 0}, {0, 2, 0}, {0, 3, 1}, {0,
 // sub0 = Subscribe([T0,T1], buf 0); Emit(T0); sub1 = Subscribe([T1,T0], buf 0); Emit(T1); two receives on sub2
 var c15Deadlock2Cfg = c15Cfg{ntypes: 2,
 	emitters: []c15Emitter{{0, false}, {1, false}},
-	subs:     []c15Sub{{false, 0, []int{0, 1}}, {false, 0, []int{1, 0}}, {false, 0, []int{0}}},
+	subs:     []c15Sub{{false, 0, []int{0, 1}, 0}, {false, 0, []int{1, 0}, 0}, {false, 0, []int{0}, 0}},
 	emits:    []c15Emit{{0, 100}, {0, 101}, {1, 102}}}
 
 var c15Deadlock2Stims = []c15Stim{{0, 0, 0}, {0, 0, 1}, {0, 3, 2}, {0, 2, 0}, {0, 3, 0}, {0, 2, 1}, {0, 3, 1}, {0, 2, 2}, {2, 2, 0}, {2, 2, 0}}
@@ -614,7 +687,7 @@ var c15Deadlock2Stims = []c15Stim{{0, 0, 0}, {0, 0, 1}, {0, 3, 2}, {0, 2, 0}, {0
 // then Subscribe and an Emit on the emitter that is still open: the event must arrive
 var c15DblCloseCfg = c15Cfg{ntypes: 1,
 	emitters: []c15Emitter{{0, false}, {0, false}},
-	subs:     []c15Sub{{false, 1, []int{0}}},
+	subs:     []c15Sub{{false, 1, []int{0}, 0}},
 	emits:    []c15Emit{{1, 100}}}
 
 var c15DblCloseStims = []c15Stim{{0, 0, 0}, {0, 0, 1}, {0, 1, 0}, {0, 3, 0}, {0, 2, 0}, {2, 0, 0}, {2, 0, 0}}
@@ -623,10 +696,61 @@ var c15DblCloseStims = []c15Stim{{0, 0, 0}, {0, 0, 1}, {0, 1, 0}, {0, 3, 0}, {0,
 // another, slow subscription: no Close call may return before the sink is detached
 var c15Close2Cfg = c15Cfg{ntypes: 1,
 	emitters: []c15Emitter{{0, false}},
-	subs:     []c15Sub{{false, 0, []int{0}}, {false, 0, []int{0}}},
+	subs:     []c15Sub{{false, 0, []int{0}, 0}, {false, 0, []int{0}, 0}},
 	emits:    []c15Emit{{0, 100}, {0, 101}}}
 
 var c15Close2Stims = []c15Stim{{0, 0, 0}, {0, 3, 0}, {0, 3, 1}, {0, 2, 0}, {0, 4, 1}, {2, 1, 0}, {2, 0, 0}, {0, 2, 1}, {2, 0, 0}, {2, 0, 0}}
+
+func c15RejName(s c15Sub) string {
+	pos, kind := (s.rej-2)/2, (s.rej-2)%2
+	where := "middle"
+	if len(s.tys) == 0 {
+		where = "only"
+	} else if pos == 0 {
+		where = "first"
+	} else if pos >= len(s.tys) {
+		where = "last"
+	}
+	return fmt.Sprintf("invalid_entry_%s.%s", where, []string{"nonpointer", "nil"}[kind])
+}
+
+// Directed histories around a REJECTED Subscribe call: the invalid entry (non-pointer / nil)
+// in front of, between and behind two valid types, buffer 0 and 1.  Shape A: nobody else
+// subscribes; more Emits of each listed type than the buffer of the rejected call holds - every
+// one must return.  Shape B: a live subscriber of T0 asks for each event before it is emitted.
+// Shape C: the type is stateful and retains an event when the call is rejected.
+func c15RejectedScenarios() (cfgs []c15Cfg, stims [][]c15Stim) {
+	for kind := 0; kind < 2; kind++ {
+		for pos := 0; pos <= 2; pos++ {
+			for cp := 0; cp <= 1; cp++ {
+				for shape := 0; shape < 2; shape++ {
+					cfg := c15Cfg{ntypes: 2, emitters: []c15Emitter{{0, false}, {1, false}},
+						subs: []c15Sub{{cap: cp, tys: []int{0, 1}, rej: 2 + 2*pos + kind}}}
+					st := []c15Stim{{0, 0, 0}, {0, 0, 1}, {0, 3, 0}}
+					if shape == 1 {
+						cfg.subs = append(cfg.subs, c15Sub{cap: 4, tys: []int{0}})
+						st = append(st, c15Stim{0, 3, 1})
+					}
+					for ty := 0; ty < 2; ty++ {
+						for k := 0; k < cp+2; k++ {
+							if shape == 1 && ty == 0 {
+								st = append(st, c15Stim{2, 1, 0})
+							}
+							st = append(st, c15Stim{0, 2, len(cfg.emits)})
+							cfg.emits = append(cfg.emits, c15Emit{ty, int64(100 + len(cfg.emits))})
+						}
+					}
+					cfgs, stims = append(cfgs, cfg), append(stims, st)
+				}
+			}
+		}
+		cfgs = append(cfgs, c15Cfg{ntypes: 1, emitters: []c15Emitter{{0, true}},
+			subs:  []c15Sub{{cap: 0, tys: []int{0}, rej: 2 + 2*1 + kind}},
+			emits: []c15Emit{{0, 100}, {0, 101}}})
+		stims = append(stims, []c15Stim{{0, 0, 0}, {0, 2, 0}, {0, 3, 0}, {0, 2, 1}})
+	}
+	return
+}
 
 func TestVerifNothing(t *testing.T) {}
 
@@ -649,6 +773,8 @@ func TestVerifC15(t *testing.T) {
 		ncorpus = 102
 	}
 	runs += ncorpus
+	rejCfgs, rejStims := c15RejectedScenarios()
+	runs += len(rejCfgs)
 	maxInFlight := c15MaxInFlight
 	for i := 0; i < runs; i++ {
 		rr := rnd.Fork()
@@ -696,6 +822,33 @@ func TestVerifC15(t *testing.T) {
 			c15MaxInFlight, c15SpinBeforeStimulus = maxInFlight, 0
 			out.Case(line)
 			out.Cover("corpus.buslock_deadlock.attempts")
+			continue
+		}
+		if i < ncorpus+len(rejCfgs) {
+			// directed: histories around a rejected Subscribe call
+			k := 0
+			ccfg, cstims := rejCfgs[i-ncorpus], rejStims[i-ncorpus]
+			line, _, r := c15Execute(t, ccfg, func(r *c15Run) (c15Stim, bool) {
+				for k < len(cstims) {
+					s := cstims[k]
+					k++
+					for _, e := range r.enabled() {
+						if e == s {
+							return s, true
+						}
+					}
+				}
+				return c15Stim{}, false
+			}, false, func(line []int64, r *c15Run) {
+				out.Case(line)
+				out.Cover("run.stuck")
+				out.Close()
+				fmt.Println("C15STUCK")
+				os.Exit(1)
+			})
+			out.Case(line)
+			c15Cover(out, ccfg, r.labels)
+			out.Cover("directed.rejected_subscribe")
 			continue
 		}
 		cfg := c15GenCfg(rr, thorough)
@@ -916,13 +1069,13 @@ func c15RaceTyped(it int, viaEmitter bool) (line []int64, miss bool) {
 	var labels [][4]int64
 	if viaEmitter {
 		// emitters 0 (closed while Subscribe ran), 1 (fresh); subscription 0
-		cfg = c15Cfg{ntypes: 1, emitters: []c15Emitter{{0, false}, {0, false}}, subs: []c15Sub{{false, 1, []int{0}}}, emits: []c15Emit{{1, 100}}}
+		cfg = c15Cfg{ntypes: 1, emitters: []c15Emitter{{0, false}, {0, false}}, subs: []c15Sub{{false, 1, []int{0}, 0}}, emits: []c15Emit{{1, 100}}}
 		labels = c15RaceLabels([4]int64{0, 0, 0, 0}, [4]int64{1, 0, 0, 0}, [4]int64{0, 1, 0, 0}, [4]int64{1, 1, 0, 0},
 			[4]int64{0, 3, 0, 0}, [4]int64{1, 3, 0, 0}, [4]int64{0, 0, 1, 0}, [4]int64{1, 0, 1, 0},
 			[4]int64{0, 2, 0, 0}, [4]int64{1, 2, 0, 0}, [4]int64{2, 0, 0, 0}, [4]int64{0, 4, 0, 0})
 	} else {
 		// subscription 0 (closed while Subscribe 1 ran); emitter 0 is created afterwards
-		cfg = c15Cfg{ntypes: 1, emitters: []c15Emitter{{0, false}}, subs: []c15Sub{{false, 1, []int{0}}, {false, 1, []int{0}}}, emits: []c15Emit{{0, 100}}}
+		cfg = c15Cfg{ntypes: 1, emitters: []c15Emitter{{0, false}}, subs: []c15Sub{{false, 1, []int{0}, 0}, {false, 1, []int{0}, 0}}, emits: []c15Emit{{0, 100}}}
 		labels = c15RaceLabels([4]int64{0, 3, 0, 0}, [4]int64{1, 3, 0, 0}, [4]int64{0, 4, 0, 0}, [4]int64{1, 4, 0, 0},
 			[4]int64{0, 3, 1, 0}, [4]int64{1, 3, 1, 0}, [4]int64{0, 0, 0, 0}, [4]int64{1, 0, 0, 0},
 			[4]int64{0, 2, 0, 0}, [4]int64{1, 2, 0, 0}, [4]int64{2, 1, 0, 0}, [4]int64{0, 4, 1, 0})
@@ -955,7 +1108,7 @@ func c15RaceWild(it int, em event.Emitter, bus event.Bus) (line []int64, miss bo
 	if !miss && !c15RaceForce {
 		return nil, false
 	}
-	cfg := c15Cfg{ntypes: 1, emitters: []c15Emitter{{0, false}}, subs: []c15Sub{{true, 0, nil}, {true, 4, nil}}, emits: []c15Emit{{0, 1}, {0, 2}}}
+	cfg := c15Cfg{ntypes: 1, emitters: []c15Emitter{{0, false}}, subs: []c15Sub{{true, 0, nil, 0}, {true, 4, nil, 0}}, emits: []c15Emit{{0, 1}, {0, 2}}}
 	labels := c15RaceLabels([4]int64{0, 0, 0, 0}, [4]int64{1, 0, 0, 0}, [4]int64{0, 3, 0, 0}, [4]int64{1, 3, 0, 0},
 		[4]int64{0, 2, 0, 0}, [4]int64{0, 4, 0, 0}, [4]int64{1, 4, 0, 0}, [4]int64{1, 2, 0, 0},
 		[4]int64{0, 3, 1, 0}, [4]int64{1, 3, 1, 0}, [4]int64{0, 2, 1, 0}, [4]int64{1, 2, 1, 0}, [4]int64{2, 1, 0, 0}, [4]int64{0, 4, 1, 0})
